@@ -3049,6 +3049,8 @@ class _Simu(_IObserver, _params.Updatable, ABC):
 
         self.__Check_problemTypes(problemType)
 
+        self._Check_dofs(problemType, unknowns)
+
         new_Bc = BoundaryCondition(
             problemType, nodes, dofs, unknowns, dofsValues, f"Dirichlet {description}"
         )
